@@ -95,12 +95,18 @@ class MTSPEnv(RL4COEnvBase):
         # If done is True, then we make the depot available again, so that it will be selected as the next node with prob 1
         available[..., 0] = torch.logical_or(done, available[..., 0])
 
-        # Update the current length
-        current_length = td["current_length"] + get_distance(cur_loc, prev_loc)
+        # Update the current length. Padding steps taken after the instance is already finished add nothing:
+        # the return to the depot has been accounted for when the last city was visited
+        finished = torch.count_nonzero(td["action_mask"][..., 1:], dim=-1) == 0
+        current_length = td["current_length"] + get_distance(cur_loc, prev_loc) * (
+            ~finished
+        ).float()
 
         # If done, we add the distance from the current_node to the depot as well
         current_length = torch.where(
-            done, current_length + get_distance(cur_loc, depot_loc), current_length
+            done & ~finished,
+            current_length + get_distance(cur_loc, depot_loc),
+            current_length,
         )
 
         # We update the max_subtour_length and reset the current_length
